@@ -7,7 +7,7 @@ discharged by `decide` in a scratch file by ./check. A constant that changes (or
 found) therefore breaks a proof obligation of exactly the properties that depend on it.
 Only literal constants are translated; everything else is tied by the correspondence runs.
 """
-import re, os, sys
+import re, os, os, sys
 
 REPO = os.environ.get("VERIF_REPO", "/repo")
 OUT = os.path.join(os.path.dirname(os.path.dirname(os.path.abspath(__file__))), "lean", "Rough", "Generated", "Constants.lean")
@@ -63,12 +63,29 @@ def main():
     consts = []      # (name, lean type, lean value)
     missing = []
 
+    def resolve_named(ident, path):
+        """value of `const IDENT: T = <integer literal>;` in the same file, else anywhere under src/"""
+        pat = r"const\s+" + re.escape(ident) + r"\s*:\s*[A-Za-z0-9_]+\s*=\s*([0-9][0-9_a-fx]*)(?:\s+as\s+\w+)?\s*;"
+        m = re.search(pat, src(path))
+        if m: return m.group(1)
+        for root, _, files in os.walk(os.path.join(REPO, "src")):
+            for f in sorted(files):
+                if f.endswith(".rs"):
+                    m = re.search(pat, open(os.path.join(root, f)).read())
+                    if m: return m.group(1)
+        return None
+
     def add_nat(name, path, pattern, flags=0):
-        m = find(pattern, src(path), name, flags)
+        # the literal may have been given a name (`const X: usize = 32;`): accept an identifier where a number stood
+        m = find(pattern.replace("([0-9_]+)", "([0-9][0-9_]*|[A-Z][A-Z0-9_]*)"), src(path), name, flags)
         if m:
-            consts.append((name, "Nat", str(num(m.group(1)))))
-        else:
-            missing.append(name)
+            g = m.group(1)
+            if not g[0].isdigit():
+                g = resolve_named(g, path)
+            if g is not None:
+                consts.append((name, "Nat", str(num(g))))
+                return
+        missing.append(name)
 
     def add_bytes_from_str(name, path, pattern, flags=0):
         m = find(pattern, src(path), name, flags)
